@@ -1,6 +1,8 @@
 import DadiVerif.Lemmas.FromPhiND
 import DadiVerif.Lemmas.FromPhiAdmix
 import DadiVerif.Lemmas.FromPhiInb
+import DadiVerif.Lemmas.FromPhiConv
+import DadiVerif.Lemmas.FromPhiIntegral
 /-!
 # C05 — sampling a spectrum from φ is exact binomial integration on every code path
 
@@ -8,7 +10,7 @@ All statements are about the definitions the driver executes (Model/FromPhi.lean
 Generated/FromPhi.lean read off the current source) or about the pointwise definitions the tabulated versions are proved
 equal to (`C05_fast_*`).  `scipy.special.betainc` at integer arguments is the parameter `betaI` (binomial tail): the
 harness checks scipy against it.  Only numerical (not proved): the F → 0 limit of the inbreeding path, float round-off,
-and `Σ_i BetaBinomConvolution = 1` for more than one individual (see `C05_conv_sum_partial`).
+and the size of the trapezoid discretisation error between the direct and the semi-analytic path.
 -/
 namespace DadiVerif
 open Finset Polynomial FromPhi Gen.FromPhi
@@ -45,6 +47,19 @@ theorem C05_1D_exact (n d : ℕ) (hd : d ≤ n) (xc φ : ℕ → ℚ) (k : ℕ) 
     simp only [map_sub, map_mul]
     ring
   · rw [entry1D_eq_entryG, entryG_eq]
+
+/-- the same as a Riemann integral over ℝ (fundamental theorem of calculus for polynomials): the k-th interval term is
+    ∫_{x_k}^{x_{k+1}} C(n,d) t^d (1-t)^(n-d) · (φ_k + s_k (t − x_k)) dt -/
+theorem C05_1D_integral (n d : ℕ) (hd : d ≤ n) (xc φ : ℕ → ℚ) (k : ℕ) :
+    ((entry1D n d xc φ k : ℚ) : ℝ)
+      = ∫ t in (xc k : ℝ)..(xc (k+1) : ℝ),
+          (bernsteinPolynomial ℝ n d).eval t
+            * ((φ k : ℝ) + ((s (φ k) (φ (k+1)) (xc k) (xc (k+1)) : ℚ) : ℝ) * (t - (xc k : ℝ))) := by
+  rw [entry1D_eq_entryG, entryG_integral n d hd]
+  congr 1
+  funext t
+  push_cast
+  ring
 
 /-- the linear piece of `C05_1D_exact` is the interpolant: it takes the values φ_k, φ_{k+1} at the two nodes
     (the guard the code needs: distinct nodes) -/
@@ -224,6 +239,22 @@ theorem C05_ND_stage (a n N : ℕ) (ha : a < 5) (x φ : ℕ → ℚ) (d : ℕ) (
   rw [analyticOp_app a n N ha, C05_1D_sum]
   have e : (fun k => clamp (x k)) = x := funext hx
   simp only [entry1D_eq_entryG, e]
+
+/-- **d dimensions = iterated 1-D integration**: for grids inside [0,1] the list of operators the 2-D…5-D linear-algebra
+    versions apply (last axis innermost, `sampleND`) is, axis by axis, the exact 1-D integration `fromPhi1D` of C05_1D_exact -/
+theorem C05_ND_iterated (ns : List ℕ) (grids : List (Array ℚ)) (hd : grids.length ≤ 5)
+    (hin : ∀ a, a < grids.length → ∀ k, clamp (gridFn (grids.getD a #[]) k) = gridFn (grids.getD a #[]) k) :
+    linalgOps ns grids = (List.range grids.length).map fun a =>
+      (⟨ns.getD a 0 + 1, (grids.getD a #[]).size,
+        fromPhi1D (ns.getD a 0) (grids.getD a #[]).size (gridFn (grids.getD a #[]))⟩ : LineOp) := by
+  unfold linalgOps
+  apply List.map_congr_left
+  intro a ha
+  have ha' := List.mem_range.mp ha
+  unfold analyticOp
+  congr 1
+  funext φ d
+  exact C05_ND_stage a _ _ (by omega) _ φ d (hin a ha')
 
 /-- linear in the density, every path, every dimension -/
 theorem C05_ND_linear (ns : List ℕ) (grids : List (Array ℚ)) (hd : grids.length ≤ 5) (a b : ℚ) (φ ψ : List ℕ → ℚ)
@@ -415,6 +446,57 @@ theorem C05_betabinom_params (x F : ℚ) (hF0 : 0 < F) (hF1 : F < 1) :
   have h : 0 < (1 - F) / F := div_pos (by linarith) hF0
   have e : x * ((1 - F) / F) + (1 - x) * ((1 - F) / F) = (1 - F) / F := by ring
   rw [e]; exact h
+
+/-- **the convolved sampling probabilities sum to one**: Σ_i `BetaBinomConvolution(i, n, a, b, ploidy=P)` = 1 for every
+    number of individuals n, ploidy P and a + b > 0.  (The partitions `Numerics.part` lists are exactly the sorted vectors;
+    with the multinomial coefficients of their value counts the sum is the multinomial expansion of (Σ_v BB(v))^n.) -/
+theorem C05_conv_sum (n P : ℕ) (a b : ℚ) (hab : 0 < a + b) :
+    ∑ i ∈ range (P * n + 1), betaBinomConv i n a b P = 1 := betaBinomConv_sum n P a b hab
+
+example : betaBinomConv 1 1 (1/2) (1/2) 2 = 1/4 := by
+  simp [betaBinomConv, part, convTerm, FromPhi.multinomial, fact, listProd, betaBinom, FromPhi.choose, rising, sumL, List.range,
+    List.range.loop, List.range']
+  norm_num
+
+/-- `part` lists all and only the non-decreasing bounded vectors of the given length and sum, each once -/
+theorem C05_part (n x lo hi : ℕ) (l : List ℕ) :
+    (l ∈ part n x lo hi ↔ l.length = n ∧ l.sum = x ∧ (∀ v ∈ l, lo ≤ v ∧ v ≤ hi) ∧ l.Pairwise (· ≤ ·))
+    ∧ (part n x lo hi).Nodup := ⟨mem_part n x lo hi l, part_nodup n x lo hi⟩
+
+theorem inbFClamp_bounds (F : ℚ) (hF : 0 < F) : 0 < inbFClamp F ∧ inbFClamp F < 1 := by
+  unfold inbFClamp ratMin
+  split_ifs with h
+  · exact ⟨hF, by linarith [show (1 : ℚ) - 1 / 10000000000 < 1 by norm_num]⟩
+  · constructor <;> norm_num
+
+/-- **inbred sampling probabilities sum to one, so the inbreeding path conserves the trapezoid mass**: for 1–3 populations,
+    every ploidy P_a > 0 dividing the sample size, every F_a > 0 (clamped below 1 as the code does), the total of the
+    spectrum is the d-fold trapezoid mass of (ascertainment multiplier · φ). -/
+theorem C05_inbreeding_mass (het : String) (ns : List ℕ) (grids : List (Array ℚ)) (Fs : List ℚ) (pls : List ℕ)
+    (hd1 : 1 ≤ grids.length) (hd : grids.length ≤ 3)
+    (hF : ∀ a, a < grids.length → 0 < Fs.getD a 0)
+    (hP : ∀ a, a < grids.length → 0 < pls.getD a 1 ∧ pls.getD a 1 ∣ ns.getD a 0) (φ : List ℕ → ℚ) :
+    boxSum ((inbOps het ns grids Fs pls).map (·.nOut)) (sampleND (inbOps het ns grids Fs pls) φ)
+      = wSum ((List.range grids.length).map fun a =>
+          ((grids.getD a #[]).size, fun k => tw (grids.getD a #[]).size (gridFn (grids.getD a #[])) k
+              * hetMult (het == inbHetKey grids.length a) (gridFn (grids.getD a #[]) k))) φ := by
+  have h := sampleND_total (inbOps het ns grids Fs pls)
+    ((List.range grids.length).map fun a => fun k => tw (grids.getD a #[]).size (gridFn (grids.getD a #[])) k
+              * hetMult (het == inbHetKey grids.length a) (gridFn (grids.getD a #[]) k))
+    (by simp [inbOps]) ?_ φ
+  · rw [h]
+    congr 1
+    simp only [inbOps, List.map_map, List.zip_map']
+    rfl
+  · intro p hp
+    simp only [inbOps, List.zip_map', List.mem_map, List.mem_range] at hp
+    obtain ⟨a, ha, rfl⟩ := hp
+    obtain ⟨hPpos, m, hm⟩ := hP a ha
+    obtain ⟨hF0, hF1⟩ := inbFClamp_bounds _ (hF a ha)
+    have := inbOp_mass grids.length a ⟨hd1, hd, ha⟩ m (pls.getD a 1) (grids.getD a #[]).size _ hF0 hF1
+      (het == inbHetKey grids.length a) (gridFn (grids.getD a #[])) hPpos
+    rw [← hm] at this
+    exact this
 
 /-! ## wiring read off the source -/
 
